@@ -396,7 +396,8 @@ class Runner(object):
         else:
             if res.n_pass != res.n_props:
                 res.status = 'inconclusive'
-                res.reason = '%d of %d properties not decided' % (res.n_props - res.n_pass, res.n_props)
+                und = ['%s:%s' % (p.get('property', ''), p.get('status')) for p in props if p.get('status') not in ('SUCCESS', 'FAILURE')]
+                res.reason = '%d of %d properties not decided: %s' % (res.n_props - res.n_pass, res.n_props, ' '.join(und[:6]))
                 return
             res.status = 'pass'
         # witness twin
@@ -547,7 +548,8 @@ def run_property(prop, obligations, tier, seed, level_note, keep=False):
     obs = [o for o in obligations if o.in_tier(tier)]
     results = []
     t0 = time.time()
-    jobs = max(1, min(NCPU, len(obs)))
+    # obligations that need several GiB each declare a weight: fewer of them run at the same time
+    jobs = max(1, min(NCPU // max([o.weight for o in obs] or [1]), len(obs)))
     try:
         with cf.ThreadPoolExecutor(max_workers=jobs) as ex:
             futs = {ex.submit(R.run_ob, o): o for o in obs}
